@@ -37,7 +37,7 @@ ALPHABET = [
     "# h", "#", "```", "~~~", "``` \x0b", "~~~ &#10;", "    c", "[a]: /u", "[a]:", "<div>", "<!--", "===", "---", "a", "  a", "> - a", "> ```",
     "> #", "> [a]: /u", "* * *", "> <div>", "> 1.", ">     c",
 ]
-INLINE_ALPHABET = ["*", "**", "_", "~~", "[", "]", "](u)", "![", "`", "a", " ", "<", ">", "&", "\\", "\n", "<http://x.y>", "(", ")", "\"", "&#", ";", ":", "!"]
+INLINE_ALPHABET = ["*", "**", "_", "~~", "[", "]", "](u)", "![", "`", "``", "\\`", "a", " ", "<", ">", "&", "\\", "\n", "<http://x.y>", "(", ")", "\"", "&#", ";", ":", "!"]
 TYPO_ALPHABET = ["(", ")", "c", "C", "r", "R", "tm", "tM", "Tm", "TM", "p", "+-", "..", ".", "?", "!", ",", "-", "--", " ", "\"", "'", "a", "\n"]
 ENUM_CFGS = [
     C.simple("commonmark", enable=["table"]),
@@ -119,6 +119,8 @@ def enumerate_cases(tier: str, shard: int, nshards: int):
             if idx % nshards != shard:
                 continue
             yield {"kind": "cli", "hex": doc.encode("utf-8", "surrogatepass").hex()}
+            if idx % 2 == 0:
+                yield {"kind": "enum", "src": doc}
     if shard == 0:
         for bad in (None, 1, 1.5, ["a"], {"a": 1}, ("x",)):
             yield {"kind": "typeerror", "arg": "src", "value": repr(bad)}
